@@ -132,7 +132,9 @@ def check_pair(part, db, qt, u, v, c, full=True):
     base_u = db.GetBaseUnit(qt)
     if conv(qt, u, base_u, 0.0) == 0 and conv(qt, v, base_u, 0.0) == 0:  # (no offset on either side, not merely equal offsets)
         slope = conv(qt, u, v, 1.0)
-        if slope > 0 and 1e-60 < slope < 1e60:
+        # (and the pair really is scale-only: a fractional-linear unit without offset maps 0 to 0 too)
+        linear = close(conv(qt, u, v, 2.0), 2.0 * slope, abs(2.0 * slope), 1e-11) and close(conv(qt, u, v, -3.0), -3.0 * slope, abs(3.0 * slope), 1e-11)
+        if slope > 0 and 1e-60 < slope < 1e60 and linear:
             for ne in (2, -2, 3, -3, -1, 2, -3):
                 for x in (1.0, 2.5, -2.5, 0.25):
                     n += 1
@@ -381,6 +383,29 @@ def _own_unit(part):
                     part.violation("C02:own-unit:%s:%s" % (what, desc), {"raised": repr(e), "object": repr(s)}, sn)
 
 
+def _fraclin(part):
+    """An application-registered unit whose conversion is FRACTIONAL-linear (base = (A + B x) / (C + D x) with D != 0;
+    no row of the shipped table has D != 0, the closure makers support it): every route for every ordered pair of a
+    type holding such a unit next to the base unit and a plain linear one."""
+    db = worlds.mini("bare")
+    db.AddUnitBase("ratio", "fraction", "frac")
+    db.AddUnit("ratio", "percent", "pct", *worlds._conv(0.0, 0.01, 1.0, 0.0))
+    db.AddUnit("ratio", "fractional-linear unit", "vr", *worlds._conv(0.0, 2.375, 10.25, 1.0))
+    db.AddUnit("ratio", "fractional-linear unit with an offset", "vr2", *worlds._conv(0.5, 3.125, 20.5, -1.0))
+    db.AddCategory("ratio", "ratio")
+    db.AddCategory("second ratio", "ratio")
+    with worlds.installed(db):
+        units = db.GetUnits("ratio")
+        for c in ("ratio", "second ratio"):
+            for u in units:
+                for v in units:
+                    check_pair(part, db, "ratio", u, v, c)
+                    part.count("pair_category")
+                    part.count("fractional_linear_pairs")
+                    if u != v:
+                        part.add("nontrivial", ("fraclin", u, v))
+
+
 def _defaults(part):
     """Objects created from a category default in a non-default unit carry the default's amount."""
     db = worlds.mini("bare")
@@ -490,6 +515,10 @@ def _dispatch(task):
         p = Part()
         _defaults(p)
         return p
+    if task[0] == "fraclin":
+        p = Part()
+        _fraclin(p)
+        return p
     if task[0] == "posc_defaults":
         p = Part()
         _posc_defaults(p)
@@ -504,7 +533,7 @@ def run(ctx):
         qts = sorted(db.GetQuantityTypes(), key=lambda q: -len(db.GetUnits(q)))
         n_pairs = sum(len(db.GetUnits(q)) ** 2 for q in qts)
     shards = [qts[i::48] for i in range(48)]
-    tasks = [("pairs", (s, ctx.thorough and not worlds.WARM)) for s in shards if s] + [("own", None), ("defaults", None), ("posc_defaults", None)] + [("warm", s) for s in shards if s]
+    tasks = [("pairs", (s, ctx.thorough and not worlds.WARM)) for s in shards if s] + [("own", None), ("defaults", None), ("fraclin", None), ("posc_defaults", None)] + [("warm", s) for s in shards if s]
     run_sharded(ctx, _dispatch, tasks)
     c = ctx.part.counters
     ctx.level = "exploration"
